@@ -49,11 +49,17 @@ def gen_session(rng, quick):
         acts += [{"wl": 0, "opts": {}, "out": names[i]} for i in range(n - 1)]
         rng.shuffle(acts)
         st = {"run": acts}
-        if rng.random() < 0.7:
+        bias = rng.random()
+        if bias < 0.45:
             # bias: the rebuilding owner is starved at the start so that peers adopt its database first
             victim = [i for i, x in enumerate(acts) if x["out"] == "P"][0]
             st["sched"] = {"policy": "starve", "seed": rng.randrange(1 << 20),
                            "starve": [victim, 0, rng.choice([22, 26, 30, 36, 44, 60, 90])]}
+        elif bias < 0.8:
+            # bias: the peers are starved at the start so that they look at the database while the owner is rebuilding it
+            peers = [i for i, x in enumerate(acts) if x["out"] != "P"]
+            st["sched"] = {"policy": "starve", "seed": rng.randrange(1 << 20),
+                           "starve": [peers, 0, rng.choice([7, 8, 10, 12, 16, 20, 26, 34])]}
         steps.append(st)
     sched = {"policy": rng.choice(POLICIES), "seed": rng.randrange(1 << 20), "pct_d": rng.choice([1, 1, 2, 3]),
              "horizon": rng.choice([30, 60, 120])}
@@ -71,7 +77,8 @@ def judge(session_res, golden, workloads, steps):
         key = json.dumps([a["wl"], a.get("opts") or {}], sort_keys=True)
         if ar["exit"] != 0:
             out.append(("a:exit0", {"symptom": "exit%s:%s" % (ar["exit"], ar.get("failure_site")),
-                                    "clean_start": bool((a.get("opts") or {}).get("clean_start"))},
+                                    "clean_start": bool((a.get("opts") or {}).get("clean_start")),
+                                    "adopted_modified": bool(ar.get("adopted_modified"))},
                         "actor %s exits %s: %s\n%s" % (a["out"], ar["exit"], ar.get("failure_site"), (ar.get("log_tail") or "")[-400:])))
             continue
         g = golden.get(key)
@@ -129,10 +136,14 @@ def run(chk, orch):
         for k in range(nk):
             na = chk.rng.choice([2, 2, 3, 4, 6, 8])
             personas = [{"ref": chk.rng.choice([0, 0, 1, 2]), "data_type": chk.rng.choice(["nanopore", "nanopore", "pacbio_ccs", "assembly"]),
-                         "genedb": chk.rng.choice([0, 0, 1]), "fastqs": chk.rng.sample(range(4), chk.rng.choice([1, 2]))} for _ in range(na)]
+                         "genedb": chk.rng.choice([0, 0, 1]), "fastqs": chk.rng.sample(range(4), chk.rng.choice([1, 2])),
+                         "db2gtf": chk.rng.random() < 0.5} for _ in range(na)]
             sched = {"policy": chk.rng.choice(POLICIES), "seed": chk.rng.randrange(1 << 20), "pct_d": chk.rng.choice([1, 2, 3]),
                      "horizon": chk.rng.choice([40, 80, 160])}
             a = {"personas": personas, "sched": sched}
+            if chk.rng.random() < 0.3:
+                # inputs delivered with identical whole-second time stamps (unpacked archive, cp -p)
+                a["same_mtime"] = ["gdb", "ref", "fq"]
             orch.submit(0, "scenarios:cache_functions", a, tag=("k", k), timeout=120)
             cfn[k] = a
         results = {}
